@@ -101,6 +101,7 @@ void do_upd(Toks &tk, std::ostream &os);
 void do_upd_public(Toks &tk, std::ostream &os);      // upd_public.cpp: the same cases through the public entry point (composed sweep only)
 void do_layout(Toks &tk, std::ostream &os);
 void do_resize(Toks &tk, std::ostream &os);
+void do_srun(Toks &tk, std::ostream &os);        // comp_solver.cpp: one Solver object, two runs (implementation only)
 void do_wmem(Toks &tk, std::ostream &os);
 void do_wafv(Toks &tk, std::ostream &os);
 void do_waff(Toks &tk, std::ostream &os);
